@@ -91,6 +91,20 @@ def strata(tier):
             yield {"rules": rules, "doc": doc, "perms": _perms(rng, n)}
 
 
+_strata0 = strata
+
+
+def strata(tier):  # noqa: F811
+    yield from _strata0(tier)
+    from .. import corpus
+    for e in corpus.CORPUS:
+        rules = [{k: v for k, v in r.items() if k not in ("doc_spec", "doc", "cast")} for r in corpus.clean_rules(e, with_casts=False)]
+        for j in range(10 if tier == "quick" else 60):
+            rng = G.rng_for("W4-C06", e["name"], j)
+            doc = e["doc"] if j == 0 else corpus.perturb(rng, e["doc"])
+            yield {"rules": rules, "doc": doc, "perms": _perms(rng, len(rules)), "w4": e["name"]}
+
+
 def budget(tier):
     return 8000 if tier == "quick" else 150000
 
@@ -194,6 +208,8 @@ def run(case, ctx):
                     f"{[a for a, _ in observed]}")
     for name, detail in mon.CONTRACTS.take():
         ctx.violate(f"C06/contract:{name}", detail)
+    if case.get("w4"):
+        ctx.count("W4-corpus-cases")
     ctx.count("n:" + (str(n) if n < 5 else ">=5"))
     if not exp0["valid"]:
         ctx.count("invalid")
